@@ -1,6 +1,7 @@
 import Driver.QuadCmd
 import Driver.QuadGenCmd
 import Driver.MeshCmd
+import Driver.GMeshCmd
 import Driver.FormulaCmd
 import Driver.SLCmd
 import Driver.QuadtreeCmd
@@ -17,6 +18,7 @@ open Driver
 
 structure St where
   mesh : Option Stbem.Mesh.Mesh := none
+  gmesh : Option Stbem.Mesh.Mesh := none
   sl : SLState := {}
   qt : QtSt := {}
   hmesh : Option Stbem.HalfEdge.HMesh := none
@@ -37,6 +39,7 @@ def dispatch (st : St) (line : String) : St × String :=
   | "est" :: _ => (st, estimCmd args)
   | "asm" :: _ => (st, asmCmd args)
   | "mesh" :: _ => let r := meshCmd st.mesh args; ({ st with mesh := r.1 }, r.2)
+  | "gmesh" :: _ => let r := gmeshCmd st.gmesh args; ({ st with gmesh := r.1 }, r.2)
   | "hm" :: _ => let r := hmCmd st.hmesh args; ({ st with hmesh := r.1 }, r.2)
   | "ip" :: _ => let r := ipCmd st.ip args; ({ st with ip := r.1 }, r.2)
   | "pd" :: _ => (st, pdCmd args)
